@@ -192,7 +192,7 @@ CONN_THOROUGH = [
     ('"s1", "s2"', 2, "FALSE", 1, "2", 1, 0, BIG1, "i = 2"),
     ('"s1", "s2", "s3"', 1, "FALSE", 1, "", 0, 1, BIG1, 's = "s2"'),
     ('"s1", "s2"', 2, "TRUE", 2, "", 0, 1, "FALSE", "FALSE"),
-    ('"s1", "s2"', 1, "FALSE", 2, "2, 2", 3, 1, BIG1, "FALSE"),
+    ('"s1", "s2"', 1, "FALSE", 2, "2", 2, 0, BIG1, "FALSE"),
 ]
 CONN_DEVS = [   # deviation(s), the property it must violate, kind
     ('"NoSendMutex", "NoWriterMutex"', "WireWhole", "inv"),
